@@ -200,7 +200,8 @@ def runModel (line : String) : String :=
         | some (k, src, tags) => unwords ["K", s.ty, encStr s.name, encStr k, encStr src, renderTagsE tags]))
       let events := renderAll (c.events.map (fun e =>
         let r := th.event e.1 e.2
-        unwords [encStr r.1, renderTagsE r.2]))
+        -- the order of an event's tags is not fixed by the property: rendered sorted (by their encoded form)
+        unwords (encStr r.1 :: toString r.2.length :: sortStrings (r.2.map encStr))))
       mapPart ++ " | " ++ outcomes ++ " | " ++ events ++ " | same"
 
 /-! ### executable specification: the documented rules computed directly from the case -/
